@@ -56,6 +56,24 @@ func ruleEffectWrite(c *Ctx, r *Rep) {
 		r.Undecided("anchor:Filesystem", "", "interface not found")
 		return
 	}
+	// where a write or removal through the os package lies behind a test of filepath.IsAbs, it is taken for the
+	// relative name: the name is appended to the directory the run was given
+	for _, fn := range c.Funcs {
+		n := 0
+		for _, ci := range callsIn(fn) {
+			switch calleeFullName(ci) {
+			case "os.WriteFile", "os.Remove", "os.RemoveAll", "os.Create", "os.OpenFile", "os.Rename", "os.Mkdir", "os.MkdirAll":
+			default:
+				continue
+			}
+			for _, g := range guardsOf(ci.Block()) {
+				if call, ok := g.Cond.(*ssa.Call); ok && calleeFullName(call) == "path/filepath.IsAbs" {
+					n++
+					r.Check(!g.Truth, sprintf("relative-names-only|%s#%d", c.FuncKey(fn), n), c.Pos(ci.Pos()), "the os call is made for names that are not absolute", sprintf("made where IsAbs is %v", g.Truth))
+				}
+			}
+		}
+	}
 	impls := c.implementations(fsI.Underlying().(*types.Interface))
 	implMethods := map[*ssa.Function]bool{}
 	for _, t := range impls {
@@ -537,6 +555,74 @@ func ruleGuardConsent(c *Ctx, r *Rep) {
 						okFlag, why = false, sprintf("flag set to true (edge %d) outside `change.Change == ChangeReplace` over the planned list", i)
 					}
 				}
+			}
+			// and the converse: a planned replacement cannot leave the flag false. Every way into a join of the flag that
+			// comes from behind `change.Change == ChangeReplace` brings the constant true, or the flag itself where it is
+			// known to be true already
+			nest := map[*ssa.Phi]bool{}
+			var collect func(p *ssa.Phi)
+			collect = func(p *ssa.Phi) {
+				if nest[p] {
+					return
+				}
+				nest[p] = true
+				for _, e := range p.Edges {
+					if inner, ok := e.(*ssa.Phi); ok {
+						collect(inner)
+					}
+				}
+			}
+			collect(cond)
+			underReplace := func(gs []guard) bool {
+				for _, g := range gs {
+					bin, isBin := g.Cond.(*ssa.BinOp)
+					if !isBin || bin.Op != token.EQL || !g.Truth {
+						continue
+					}
+					kk, isKK := bin.Y.(*ssa.Const)
+					if !isKK || !c.isModNamed("ChangeType")(kk.Type()) {
+						continue
+					}
+					if strings.HasSuffix(c.constName(kk.Type(), kk.Value), "ChangeReplace") {
+						return true
+					}
+				}
+				return false
+			}
+			nUnder := 0
+			for p := range nest {
+				for i, e := range p.Edges {
+					from := p.Block().Preds[i]
+					gs := append(guardsOf(from), edgeGuard(from, p.Block())...)
+					if !underReplace(gs) {
+						continue
+					}
+					nUnder++
+					if k, isK := e.(*ssa.Const); isK {
+						if !constBool(k) {
+							okFlag, why = false, "the flag is set to false behind `change.Change == ChangeReplace`"
+						}
+						continue
+					}
+					knownTrue := false
+					if inner, isPhi := e.(*ssa.Phi); isPhi && nest[inner] {
+						for _, g := range gs {
+							if gp, ok := g.Cond.(*ssa.Phi); ok && nest[gp] && g.Truth {
+								knownTrue = true
+							}
+						}
+						// a join that itself lies behind the test: its own ways in are checked by this loop
+						if !knownTrue && inner != p && underReplace(guardsOf(inner.Block())) {
+							knownTrue = true
+						}
+					}
+					if !knownTrue {
+						okFlag, why = false, "a planned replacement can pass without the flag becoming true"
+					}
+				}
+			}
+			if nUnder == 0 {
+				okFlag, why = false, "no way into the flag comes from behind `change.Change == ChangeReplace`"
 			}
 			return verdict{"flag", okFlag, why, flagFact.If.Pos()}
 		}
